@@ -8,7 +8,9 @@ from harness.props.C06 import emailish_text
 from debian_inspector import copyright as dc, debcon, deb822
 
 NEAR = ['License', 'License-1', 'License_1', 'Files-2', 'Extra-Data', 'Line-Numbers-By-Field', 'Unknown', 'Unknown-1', 'Format',
-        'Format-Specification', 'Content-Type', 'Files', 'Copyright', 'Comment', 'license', 'LICENSE-1', 'License-1-2', 'Unknown-Foo']
+        'Format-Specification', 'Content-Type', 'Files', 'Copyright', 'Comment', 'license', 'LICENSE-1', 'License-1-2', 'Unknown-Foo',
+        # the other declared fields of the paragraph types (each has its own field class)
+        'Upstream-Contact', 'Upstream-Name', 'Source', 'Disclaimer', 'Files-Excluded', 'Upstream-Contact', 'Source']
 
 
 def near_miss_text(rng):
@@ -52,7 +54,9 @@ def p_total(t):
         r1 = entry_points(t)
         r2 = entry_points(t)
     except RecursionError:
-        return None     # interpreter limit on nested MIME containers: outside the model (DESIGN 8.2)
+        if 'content-type' in t.lower():
+            return None     # interpreter limit on nested MIME containers: outside the model (DESIGN 8.2)
+        return 'raises RecursionError on a text of %d characters, %d lines' % (len(t), t.count('\n') + 1)
     except Exception as e:  # noqa
         return 'raises %s: %s' % (type(e).__name__, str(e)[:80])
     if r1 != r2:
@@ -76,7 +80,26 @@ def run(ctx):
     seqs = ['\n'.join(s) for n in range(ctx.n(5, 6) + 1) for s in itertools.product(kinds, repeat=n)]
     ctx.exhaustive.append('all %d sequences of up to %d lines over %r' % (len(seqs), ctx.n(5, 6), kinds))
     texts += seqs
+    # every declared field of every paragraph type with an empty line inside its value (recovered as part of the value), in
+    # paragraphs of each type
+    DECL = ['Format', 'Upstream-Name', 'Upstream-Contact', 'Source', 'Disclaimer', 'Copyright', 'License', 'Comment', 'Files-Excluded', 'Files']
+    for lead in ('Format: f', 'Files: *', 'License: MIT', 'Foo: x', ''):
+        for name in DECL:
+            for first in ('John Doe <john@example.org>', '', '2019 x', '*'):
+                for cont in (' Jane Roe <jane@example.org>', '  https://example.org/contact', ' .', '\tx'):
+                    texts.append((lead + '\n' if lead else '') + '%s: %s\n\n%s\nSource: s\n\nFiles: *\nCopyright: 2020 J\nLicense: MIT\n' % (name, first, cont))
     fails = ctx.prop('prop:total', texts, p_total)
+    # texts of thousands of paragraphs, well-formed and not (value-less licenses followed by free text, junk, duplicates)
+    bigs = []
+    for n in (1200, 3000, 9000):
+        parts = []
+        for i in range(n):
+            k = i % 6
+            parts.append(['Files: f%d\nCopyright: 2019 h%d\nLicense: L%d\n text %d' % (i, i, i, i), 'License:', 'free text %d here' % i, 'License: X%d\n t' % i,
+                          'Foo-%d: bar\nFoo-%d: baz' % (i, i), 'Unknown: u%d' % i][k])
+        bigs.append('Format: x\n\n' + '\n\n'.join(parts) + '\n')
+        bigs.append('\n\n'.join('License:\n\nwords %d' % i for i in range(n)))
+    fails += ctx.prop('prop:total:large', bigs, p_total)
     bad = ctx.compare('corr:copyright', [('copyright_from_text', [t]) for t in texts if len(t) < 4000], _copy.impl)
     bad += ctx.compare('corr:get_paragraphs_data', [('get_paragraphs_data', [t]) for t in texts[:ctx.n(15000, 200000)]], _debcon.impl)
     bad += ctx.compare('corr:groups', [('groups', [t]) for t in texts[:ctx.n(15000, 200000)]], _d822.impl)
